@@ -19,7 +19,11 @@ import (
 const relTol = 1e-5
 
 var (
-	set6 = []float64{-2, -1, 0, 0.5, 1, 3} // unary laws: 6^6 matrices
+	// unary laws: 8^6 matrices. The two small powers of two (font units 1/2048, and 1/8192 ~ 1.2e-4:
+	// the scale of a 914400-unit viewBox drawn on 100px) give matrices whose determinant is far
+	// from 1 but not zero (down to 2^-26 ~ 1.5e-8): "Invert is a two-sided inverse whenever the
+	// determinant is non-zero" is checked on them like on every other matrix of the set.
+	set6 = []float64{-2, -1, 0, 0.5, 1, 3, 1.0 / 2048, 1.0 / 8192}
 	set3 = []float64{0, 1, -2}             // pairs: (3^6)^2
 	// triples (2^6)^3 per set
 	sets2Quick    = [][]float64{{1, -2}}
@@ -116,6 +120,8 @@ func (c *check) runUnary(lo, hi int64, ctx *engine.Ctx) {
 		d := det(m)
 		if d == 0 {
 			feats = append(feats, "singular")
+		} else if math.Abs(d) < 1e-3 {
+			feats = append(feats, "small-determinant")
 		}
 		bad := func(clause, format string, args ...any) {
 			c.failAlg(ctx, clause, desc, feats, format, args...)
@@ -138,8 +144,10 @@ func (c *check) runUnary(lo, hi int64, ctx *engine.Ctx) {
 			}
 			ctx.Count("law:identity", 1)
 			// determinant
-			if g := float64(T.Determinant()); g != d {
-				bad("determinant", "want %g got %g", d, g)
+			// the two products are exact in float32, their difference is rounded once
+			// (9 - 2^-26 is not a float32): the reference is the exact value rounded to float32
+			if g, w := float64(T.Determinant()), float64(fl(d)); g != w {
+				bad("determinant", "want %g got %g", w, g)
 			}
 			ctx.Count("law:determinant", 1)
 			// apply
@@ -160,7 +168,7 @@ func (c *check) runUnary(lo, hi int64, ctx *engine.Ctx) {
 				} else {
 					want := inverse(m)
 					gi := toM(inv)
-					if !near(gi, want, relTol) {
+					if !nearInverse(gi, want, m) {
 						bad("invert", "want %v got %v", want, gi)
 					}
 					// two-sided, with the implementation's own product
@@ -179,6 +187,9 @@ func (c *check) runUnary(lo, hi int64, ctx *engine.Ctx) {
 					}
 				}
 				ctx.Count("law:invert", 1)
+				if math.Abs(d) < 1e-6 {
+					ctx.Count("law:invert(0<|det|<1e-6)", 1)
+				}
 				key = "inv " + toM(inv).key()
 			} else {
 				ctx.Count("invert:singular-skipped", 1)
@@ -233,6 +244,20 @@ func (c *check) runUnary(lo, hi int64, ctx *engine.Ctx) {
 		}
 		ctx.Case(true, key)
 	}
+}
+
+// nearInverse compares an inverse with the reference: the linear part entry-wise (relative),
+// the translation part -A⁻¹·(e,f) relative to the magnitude of the terms it sums (in float32 the
+// sum of 1755·(-2) and 1170·3 is known to 2e-4 only, whatever its value).
+func nearInverse(got, want, m M) bool {
+	for i := 0; i < 4; i++ {
+		if !(math.Abs(got[i]-want[i]) <= relTol*(1+math.Abs(want[i]))) {
+			return false
+		}
+	}
+	te := math.Abs(want[0]*m[4]) + math.Abs(want[2]*m[5])
+	tf := math.Abs(want[1]*m[4]) + math.Abs(want[3]*m[5])
+	return math.Abs(got[4]-want[4]) <= relTol*(1+te) && math.Abs(got[5]-want[5]) <= relTol*(1+tf)
 }
 
 func maxAbs(m M) float64 {
